@@ -13,6 +13,7 @@ Replay specs
   C09d|<def id>                          signature stability across processes
   C10|<family>|<mode>|<fail set>|<kind>|<k>|<retry>
   C10i|<family>|<mode>|<gated command>|<k>     SIGINT while the gated command runs
+A trailing " #<class>" (added to every recorded spec) restricts the replay's verdict to that violation class.
 History events: e:<src> rewrite a source (same size), a:<src> append to it,
 x:<node> delete an output, w:<node> overwrite it with garbage, D:<variant>
 switch the description, b:<target> build.
@@ -24,6 +25,7 @@ import sys
 import time
 import traceback
 
+sys.dont_write_bytecode = True
 sys.path.insert(0, os.path.dirname(os.path.abspath(__file__)))
 import wx  # noqa: E402
 from wx import Sandbox, CleanOracle, Result, Args, HarnessError, is_virtual  # noqa: E402
@@ -603,7 +605,9 @@ def phases_for(prop, tier):
     deepf = [f for f in allf if f.quick or f.deep]
     if prop == "C08":
         if tier == "quick":
-            return [(quickf, 1, 4, False)], "histories of <= 4 events for the %d quick families" % len(quickf)
+            return ([(allf, 1, 3, False), (quickf, 4, 4, False)],
+                    "histories of <= 3 events for all %d families plus histories of exactly 4 events for the %d quick families" % (
+                        len(allf), len(quickf)))
         return ([(allf, 1, 4, True), (deepf, 5, 5, False)],
                 "histories of <= 4 events (with both same-size rewrites e: and appends a: of sources) for all %d families, "
                 "plus histories of exactly 5 events (e: only) for the %d deep families" % (len(allf), len(deepf)))
@@ -690,6 +694,10 @@ def main():
                 "commands and their consumers; evaluations = histories + pair checks executed; distinct_nontrivial = histories "
                 "with >= 2 builds whose last build executed at least one command")
             res.counters["bound_depth"] = max(p[2] for p in phases)
+            res.assumptions.append("events within one segment commute (llbuild compares file times for equality only), so "
+                                   "one order per set of events is explored")
+            res.assumptions.append("the 're-run only with a cause' oracle makes no claim about a command after a failed build, after "
+                                   "a build whose description lacked or redefined it, or when it reads through a symlink node")
         elif args.prop == "C10":
             c10.run(args, res)
         else:
